@@ -72,6 +72,8 @@ def gen_case_dag(seed, tier, index=0, restart_bias=False):
                 e['dur'] = rr.choice([0.3, 2.0, 5.0])
         if rr.random() < 0.5:
             plan[name]['default']['outs'] = [[0.1, 'data.txt', 'x\n']]
+        if c.get('refs') and not c.get('aggregate') and not c.get('replicate') and rr.random() < 0.08:
+            c['aggregate'] = True  # legal but unusual: an aggregating component none of whose producers is replicated
         if c.get('restartHookFile') or use_hook_file:
             hook[name] = [rr.choice(['Possible', 'Possible', 'Possible', 'HookNotAvailable', 'NotRequired', 'NotPossible',
                                      'HookFailed', 'raise', 'ioerror', 'true', 'false', 'junk', 'junkstr'])
@@ -125,6 +127,30 @@ def gen_case_observer_race(seed, tier, index=0):
             'sched_seed': rr.getrandbits(48)}
 
 
+def gen_case_repeating_restart(seed, tier, index=0):
+    """C12 sub-profile: the single restart of a repeating engine whose last task exits ResourceExhausted, with restart
+    submissions that fail quickly, slowly (long enough for 'alive' to be published) or succeed"""
+    rr = random.Random(seed)
+    comps = [{'name': 'P', 'stage': 0, 'refs': []},
+             {'name': 'O', 'stage': 0, 'refs': ['P'], 'repeat': {'interval': rr.choice([1, 3]), 'retries': rr.choice([0, 0, 1])}}]
+    if rr.random() < 0.3:
+        comps[1]['shutdownOn'] = ['ResourceExhausted']
+    plan = {'P': {'default': {'dur': rr.choice([0.3, 2.0, 6.0]), 'exit': 'Success', 'outs': [[0.1, 'data.txt', 'x\n']]}}}
+    nre = rr.choice([1, 2, 4])
+    execs = [{'dur': rr.choice([0.3, 2.0]), 'exit': 'ResourceExhausted'} for _ in range(nre)]
+    for _ in range(rr.choice([0, 1, 2, 4])):
+        e = {'dur': 0.3, 'exit': 'Success', 'launch_fail': rr.choice(['oserror', 'joblaunch'])}
+        if rr.random() < 0.7:
+            e['launch_fail_delay'] = rr.choice([6.0, 12.0])
+        execs.append(e)
+    execs.append({'dur': 0.3, 'exit': rr.choice(['Success', 'ResourceExhausted', 'KnownIssue'])})
+    plan['O'] = {'default': {'dur': 0.3, 'exit': 'Success'}, 'execs': execs}
+    knobs = common.knobs_from(rr, tier)
+    knobs['workers'] = None
+    return {'comps': comps, 'stage_opts': {}, 'plan': plan, 'hook': {}, 'hook_file': False, 'knobs': knobs,
+            'sched_seed': rr.getrandbits(48)}
+
+
 def gen_case_restart(seed, tier, index=0):
     """C12 profile: 1-3 components, long failure sequences, every restart attribute combination"""
     rr = random.Random(seed)
@@ -160,6 +186,8 @@ def gen_case_restart(seed, tier, index=0):
                 e['launch_fail'] = 'joblaunch'
             elif rr.random() < lf:
                 e['launch_fail'] = rr.choice(['oserror', 'joblaunch', 'joblaunch', 'valueerror'])
+            if e.get('launch_fail') and rr.random() < 0.35:
+                e['launch_fail_delay'] = rr.choice([2.0, 6.0, 12.0])
             execs.append(e)
         if rr.random() < 0.4 and on:
             # a streak: the same restartable exit many times in a row (what exhausts a restart budget), then success
@@ -596,7 +624,9 @@ def classify_hang(nodes, ev, stuck):
         kinds = [e[2] for e in evs]
         if st == 'checking':
             restarted = any(e[2] == 'restart' and (e[4] or {}).get('code') == 'RestartInitiated' for e in evs)
-            stopped = any(e[2] == 'finish' and e[4]['state'] == 'running' for e in evs)
+            # stopped from outside: finish() that is not the verdict of the component's own post-mortem check (the state
+            # recorded with the call may already be stale when finish() takes its lock, so it is not consulted)
+            stopped = any(e[2] == 'finish' and (e[4]['state'] == 'running' or not e[4].get('via_pm')) for e in evs)
             last_kinds = [k for k in kinds if k in ('launch', 'launch-fail', 'exit')]
             stale = [e[0] for e in evs if e[2] == 'postMortemCheck' and e[4].get('exitReason') is None]
             last_exit = max([e[0] for e in evs if e[2] in ('exit', 'launch-fail')] or [0])
